@@ -9,8 +9,14 @@ Stage B (correspondence with the Lean model Ptn.C19):
   * `star` / `starconst` / `fork` / `forkconst` / `binary`: dict order, parent, child order, per-node leg order and
     shapes of the star, fork and binary constructors, including arbitrary (mostly invalid) call sequences that
     library and model must accept or reject alike.
+  * `starl` / `forkl`: the same with the optional argument `parent_leg` of add_chain_node / add_main_chain_node /
+    add_sub_chain_node on every call; `mpsdirect`: add_root + attach_node_left_end / attach_node_right_end called
+    directly in an arbitrary interleaving.
 Stage C (oracle): well-formedness, documented identifiers and an independent dense contraction
 (einsum over the *specified* tensors / Kronecker sums built from the adjacency) for every constructor.
+Every documented optional argument / alternative entry point of the anchored constructors is exercised: explicit
+parent legs (tensors whose legs are NOT in the default order), identifier prefixes given / omitted, positional /
+keyword / defaulted arguments, TreeStructure / full network / pair list / identifier array inputs (`_extend_cases`).
 """
 from __future__ import annotations
 
@@ -32,14 +38,21 @@ RULE = ("cases: matrix-product chains of every length 2..8 x every root x open-l
         "random tensors with random main/sub interleaving), binary trees; TTNO.from_tensor on random trees <= 5 nodes "
         "with every leg assignment class and mode QR/SVD/tSVD, operators random / product / low-rank / zero; Ising and "
         "flipped Ising builders on trees, chains, pair lists and grids, nearest-neighbour / single-site builders and "
-        "exact dense builders with random real couplings. non-trivial = a case that is not the default configuration "
+        "exact dense builders with random real couplings; every optional argument of these constructors is varied "
+        "(explicit parent_leg on first and later chain / main / sub nodes with tensors whose legs are in a shuffled "
+        "order, prefixes given or omitted, positional / keyword / defaulted arguments, direct attach_node_left_end / "
+        "attach_node_right_end calls in any interleaving, reference tree given as TreeStructure or as a network, "
+        "grid given as (prefix, rows, cols) or as an array of arbitrary identifiers, local / total magnetisation, "
+        "per-site factor lists and operator names of single_site_operators). non-trivial = a case that is not the default configuration "
         "of its constructor (root not 0, padding, dimension != 2, > 1 chain, non-identity leg assignment, "
         "branching tree, grid with both directions, J or g outside {0, 1})")
 PARTIAL = [
     "value-level faithfulness (tensor contents, zero padding of bonds, product-state values, operator matrices) is "
     "decided per input by the dense oracle; the Lean theorems cover the index logic only: chain structure and leg "
     "order (mps_chain_structure), star / fork / binary structure and leg order (star_structure, fork_structure, "
-    "binary_structure), grid pair list (nn_pairs_grid), Ising term multisets (ising_terms, ising_pairs_terms), "
+    "binary_structure), the optional argument parent_leg of star and fork (parent_leg_attach: effect of one call "
+    "on the parent's leg order; star_parent_leg_structure / fork_parent_leg_structure: any mixture of explicit "
+    "and omitted legs builds the same tree as the default calls), grid pair list (nn_pairs_grid), Ising term multisets (ising_terms, ising_pairs_terms), "
     "transposition and leg bookkeeping of from_tensor (qr_shape_perm, from_tensor_legs)",
     "numerical exactness of the QR/SVD factorisations inside TTNO.from_tensor is by contract (contraction compared "
     "with the input to 1e-9 on every case); bond / leg dimensions of chains and of from_tensor are not modelled "
@@ -49,6 +62,13 @@ PARTIAL = [
     "(star_const_structure_partial, ftps_structure_partial are conditional) - completion is checked by the "
     "correspondence and the oracle on the parameter grid; binary_structure includes completion",
     "the exact dense builders have no Lean model: dense oracle only",
+    "oracle + correspondence only (no theorem): hand-made chains assembled by direct attach_node_left_end / "
+    "attach_node_right_end calls in an order other than left-side-first; a whole-run closed form of the leg "
+    "permutations under explicit parent legs; oracle only: identifier prefixes and positional / keyword / defaulted "
+    "arguments, binary trees whose physical tensor has two open legs, networks as reference trees, identifier "
+    "arrays with arbitrary names, local / total magnetisation, per-site factor lists and operator names",
+    "F-C19b (recorded, open): attach_node_right_end on a hand-made chain whose root is the leftmost site uses the "
+    "root's first open leg",
     "F-C19a: the 2-D Ising builders omit the field term on a 1x1 grid; theorem ising_grid_terms_partial assumes "
     "rows*cols >= 2, theorem ising_grid_1x1_empty is the witness of the negation",
 ]
@@ -58,6 +78,10 @@ ASSUMPTIONS = [
 ]
 
 TOL = 1e-9
+
+# Finding F-C19b (see notes/C19.md): hand-made chains whose ROOT IS THE LEFTMOST SITE (root tensor `[right, open...]`) extended by a direct call of
+# `attach_node_right_end`.  The method hard-codes parent_leg = 1 for the root, i.e. the root's first OPEN leg there.
+DIRECT_LEFTMOST_ROOT = True        # F-C19b is recorded (open) in known_findings.json
 
 warnings.filterwarnings("ignore", category=SyntaxWarning)
 warnings.filterwarnings("ignore", message="All singular values were truncated")
@@ -365,7 +389,118 @@ def gen_cases(ctx):
     for _ in range(ctx.n(50, 800)):
         cases.append({"kind": "exact", "n": rng.randint(1, 7), "J": coupling(), "g": coupling(),
                       "flipped": rng.random() < 0.5, "d": rng.choice([2, 3]), "seed": rng.randrange(10 ** 9)})
+    _extend_cases(ctx, cases)
     return cases
+
+
+def _extend_cases(ctx, cases):
+    """Optional arguments and alternative entry points of the anchored constructors.  Every draw comes from a
+    separate stream, so for a given seed the cases of the main stream stay what they were; the new fields are
+    read with `.get(..)` defaults by the case functions (corpus / replay cases without them keep their meaning)."""
+    xr = ctx.subrng("optional-args")
+    for c in cases:
+        k = c["kind"]
+        if k == "mps":
+            c["args"] = xr.choice(["kw", "kw", "pos", "default"])
+        elif k == "mpsconst":
+            c["args"] = xr.choice(["kw", "pos", "default", "kwall"])
+        elif k == "starconst":
+            c["args"] = xr.choice(["kw", "pos", "default", "kwall"])
+        elif k == "star":
+            c["ctor"] = xr.choice(["kw", "kw", "pos", "default"])
+            if c["ctor"] == "default":
+                c["prefix"], c["center"] = None, None
+            if not c.get("legperm") and xr.random() < 0.5:
+                c["legmode"] = "all"
+        elif k == "forkconst":
+            c["args"] = xr.choice(["kw", "pos", "default", "kwall"])
+            c["real"] = xr.random() < 0.3
+        elif k == "fork":
+            c["prefixes"] = xr.choice([None, None, ["m", "s"], ["main_", "sub"]])
+            c["ctor"] = xr.choice(["kw", "pos"])
+            c["legmode"] = xr.choice(["default", "explicit", "explicit"])
+        elif k == "binary":
+            c["args"] = xr.choice(["kw", "pos", "default", "kwall"])
+            c["phys_opens"] = xr.choice([1, 1, 2])
+        elif k == "fromtensor":
+            c["ref"] = xr.choice(["structure", "structure", "ttns"])
+            c["mode_arg"] = xr.choice(["kw", "pos", "kwall"] + (["omit", "omit"] if c["mode"] == "QR" else []))
+            c["ld_shuffle"] = xr.random() < 0.5
+        elif k == "model":
+            c["call"] = xr.choice(["pos", "pos", "kw", "kw", "default"])
+            if c["call"] == "default":
+                c["J"] = 1.0                       # the documented default of `factor` / `coupling`
+            if c["shape"] in ("tree", "pairs", "chain"):
+                c["names"] = xr.choice(["s", "s", "site", "q_"])
+                if c["shape"] != "pairs":
+                    c["ref"] = xr.choice(["structure", "structure", "ttns"])
+            elif c["shape"] == "gridarr":
+                c["gridnames"] = xr.choice(["pattern", "arbitrary", "arbitrary"])
+        elif k == "nnham":
+            if c["single"]:
+                c["ssvar"] = xr.choice([None, "factorlist", "names", "nofactor", "names+nofactor"])
+        elif k == "exact":
+            c["call"] = xr.choice(["pos", "kw"])
+    # ---- hand-made chains: add_root + attach_node_left_end(final=..) / attach_node_right_end in any interleaving
+    reps = ctx.n(3, 12)
+    for n in range(2, 8):
+        for r in range(n):
+            if r == 0 and not DIRECT_LEFTMOST_ROOT:
+                continue
+            for rep_ in range(reps):
+                cls = xr.choice(["mps", "mps", "mpo", "mpt"])
+                if cls == "mps":
+                    opens = [[xr.choice([1, 2, 3])] for _ in range(n)]
+                elif cls == "mpo":
+                    opens = [[d, d] for d in (xr.choice([1, 2, 3]) for _ in range(n))]
+                else:
+                    # the root keeps at least one open leg: the direct calls address the root's legs by position
+                    opens = [[xr.choice([1, 2, 3]) for _ in range(xr.choice([0, 1, 1, 2]))] for _ in range(n)]
+                opens = _limit_dims(xr, opens, 4000)
+                order = ["L"] * r + ["R"] * (n - 1 - r)
+                if rep_ % 2 == 0 or len(set(order)) < 2:
+                    xr.shuffle(order)
+                else:
+                    # right side first: the order from_tensor_list never uses
+                    order = ["R"] * (n - 1 - r) + ["L"] * r
+                cases.append({"kind": "mpsdirect", "cls": cls, "n": n, "r": r, "opens": opens,
+                              "bonds": [xr.choice([1, 2, 2, 3]) for _ in range(n - 1)], "pad": [0] * (n - 1),
+                              "padpos": ["end"] * (n - 1), "seed": xr.randrange(10 ** 9),
+                              "prefix": xr.choice(["site", "k"]), "order": order,
+                              "final": xr.choice(["kw", "pos", "omit"])})
+    # ---- arbitrary call sequences with explicit parent legs (mostly invalid ones included)
+    for _ in range(ctx.n(80, 800)):
+        dimc = [2] if xr.random() < 0.7 else [1, 2]
+        cshape = [xr.choice(dimc) for _ in range(xr.randint(1, 4))]
+        calls, nch = [], 0
+        for _ in range(xr.randint(1, 6)):
+            c_ = xr.randint(0, nch) if xr.random() < 0.9 else xr.randint(0, 4)
+            if c_ == nch:
+                nch += 1
+            leg = None if xr.random() < 0.35 else xr.randint(0, 3)
+            calls.append([c_, leg, [xr.choice(dimc) for _ in range(xr.choice([1, 2, 2, 3, 3]))]])
+        cases.append({"kind": "staranyl", "cshape": cshape, "calls": calls})
+    for _ in range(ctx.n(80, 800)):
+        dimc = [2] if xr.random() < 0.7 else [1, 2]
+        calls, nm = [["m", None, [xr.choice(dimc) for _ in range(xr.randint(1, 4))]]], 1
+        for _ in range(xr.randint(1, 6)):
+            sh = [xr.choice(dimc) for _ in range(xr.choice([1, 2, 3, 3, 4]))]
+            leg = None if xr.random() < 0.35 else xr.randint(0, 3)
+            if xr.random() < 0.4:
+                calls.append(["m", leg, sh])
+                nm += 1
+            else:
+                calls.append(["s", xr.randrange(nm) if xr.random() < 0.9 else xr.randint(0, 4), leg, sh])
+        cases.append({"kind": "forkanyl", "calls": calls})
+    # ---- local / total magnetisation (models.py)
+    for _ in range(ctx.n(40, 400)):
+        n = xr.randint(1, 6)
+        par = gen.random_parent_array(xr, n)
+        cases.append({"kind": "magn", "par": par, "order": gen.insertion_order(xr, par),
+                      "structure": xr.choice(["tree", "list", "ttns"]),
+                      "with_factor": xr.choice([True, False, None]), "names": xr.choice(["s", "site", "q_"]),
+                      "T": xr.randint(1, 5), "scale": xr.choice([1.0, 1.0, 1e-6, 1e6]),
+                      "complex": xr.random() < 0.5, "seed": xr.randrange(10 ** 9)})
 
 
 # =============================================================================== model lines
@@ -378,6 +513,9 @@ def model_lines(case):
         if mode == "leftmost":
             return [f"C19 leftmost {case['n']} {ps}"]
         return [f"C19 mps {case['n']} {case['r']} {ps}"]
+    if k == "mpsdirect":
+        ps = " ".join(str(len(o)) for o in case["opens"])
+        return [f"C19 mpsdirect {case['n']} {case['r']} {ps} | " + " ".join(_direct_tokens(case))]
     if k == "mpsconst":
         ps = " ".join("1" for _ in range(case["n"]))
         return [f"C19 mps {case['n']} {case['r']} {ps}"]
@@ -385,16 +523,22 @@ def model_lines(case):
         return [f"C19 grid {case['rows']} {case['cols']}"]
     if k == "starconst":
         return [f"C19 starconst {case['d']} {case['L']} {case['C']}"]
-    if k == "star" and case.get("legperm"):
-        return []           # explicit parent legs: judged by the dense oracle only (the model has default legs)
     if k == "star":
-        sh = _star_shapes(case)
-        pos = [0] * len(case["lens"])
-        toks = []
-        for c in case["sched"]:
-            toks.append(f"{c}:{_shape_tok(sh[(c, pos[c])])}")
-            pos[c] += 1
-        return [f"C19 star {_shape_tok(sh['center'])} " + " ".join(toks)]
+        spec, sh, _ = _star_spec(case)
+        calls = _star_calls(case, spec)
+        if _star_legmode(case) == "default":
+            return [f"C19 star {_shape_tok(sh['center'])} " + " ".join(f"{c}:{_shape_tok(sh[(c, j)])}"
+                                                                      for (c, j, _, _, _) in calls)]
+        return [f"C19 starl {_shape_tok(sh['center'])} "
+                + " ".join(f"{c}@{'-' if leg is None else leg}:{_shape_tok(sh[(c, j)])}"
+                           for (c, j, leg, _, _) in calls)]
+    if k == "staranyl":
+        return [f"C19 starl {_shape_tok(case['cshape'])} "
+                + " ".join(f"{c}@{'-' if leg is None else leg}:{_shape_tok(sh)}" for c, leg, sh in case["calls"])]
+    if k == "forkanyl":
+        return ["C19 forkl " + " ".join(
+            (f"m@{'-' if c[1] is None else c[1]}:" + _shape_tok(c[2])) if c[0] == "m"
+            else (f"s{c[1]}@{'-' if c[2] is None else c[2]}:" + _shape_tok(c[3])) for c in case["calls"])]
     if k == "starany":
         return [f"C19 star {_shape_tok(case['cshape'])} " + " ".join(f"{c}:{_shape_tok(sh)}" for c, sh in case["calls"])]
     if k == "forkany":
@@ -403,12 +547,16 @@ def model_lines(case):
     if k == "forkconst":
         return [f"C19 forkconst {case['d']} {case['w']} {case['h']} {case['bd']}"]
     if k == "fork":
-        sh = _fork_shapes(case)
-        toks = []
-        for ev, nid in zip(case["events"], sh["creation"]):
-            toks.append(("m" if ev[0] == "m" else f"s{ev[1]}") + ":" + _shape_tok(sh["shape"][nid]))
-        return ["C19 fork " + " ".join(toks)]
+        spec, sh, pm = _fork_spec(case)
+        calls = _fork_calls(case, spec, sh["creation"], pm)
+        if case.get("legmode", "default") == "default":
+            return ["C19 fork " + " ".join(("m" if ev[0] == "m" else f"s{ev[1]}") + ":" + _shape_tok(sh["shape"][nid])
+                                           for (ev, nid, _, _) in calls)]
+        return ["C19 forkl " + " ".join(("m" if ev[0] == "m" else f"s{ev[1]}") + f"@{'-' if leg is None else leg}:"
+                                        + _shape_tok(sh["shape"][nid]) for (ev, nid, leg, _) in calls)]
     if k == "binary":
+        if case.get("phys_opens", 1) != 1 and (2 * case["d"]) ** case["nphys"] <= 40000:
+            return []       # the model's physical tensor has exactly one open leg: oracle only
         return [f"C19 binary {case['nphys']} {case['bd']} {case['d']}"]
     if k == "model":
         if case["shape"] in ("grid", "gridarr"):
@@ -468,7 +616,8 @@ def run_case(ctx, case, model_out=None):
         model_out = ctx.lean.batch(ls) if ls else []
     fn = {"mps": _case_mps, "mpsconst": _case_mpsconst, "starconst": _case_starconst, "star": _case_star,
           "forkconst": _case_forkconst, "fork": _case_fork, "binary": _case_binary,
-          "starany": _case_any, "forkany": _case_any,
+          "starany": _case_any, "forkany": _case_any, "staranyl": _case_any, "forkanyl": _case_any,
+          "mpsdirect": _case_mpsdirect, "magn": _case_magn,
           "fromtensor": _case_fromtensor, "model": _case_model, "gridpairs": _case_gridpairs,
           "nnham": _case_nnham, "exact": _case_exact}[case["kind"]]
     fn(ctx, case, model_out)
@@ -545,11 +694,23 @@ def _case_mps(ctx, case, model_out):
     ctx.tally("mps_n_root", f"{n}:{'first' if r == 0 else ('last' if r == n - 1 else 'mid')}")
     ctx.tally("mps_class", case["cls"] + ("+pad" if any(case["pad"]) else ""))
     ctx.sample(case, 1)
+    style = case.get("args", "kw")
+    kw = {}
+    if style != "default" or prefix != "site":
+        kw["node_prefix"] = prefix
+    if case["path"] != "leftmost" and (style != "default" or r != 0):
+        kw["root_site"] = r
+    ctx.tally("mps_args", style + (":" + "+".join(sorted(kw)) if style == "default" else ""))
     try:
         if case["path"] == "leftmost":
-            mpt = cls.from_tensor_list_leftmost_node_is_root(inputs, node_prefix=prefix)
+            if style == "pos":
+                mpt = cls.from_tensor_list_leftmost_node_is_root(inputs, prefix)
+            else:
+                mpt = cls.from_tensor_list_leftmost_node_is_root(inputs, **kw)
+        elif style == "pos":
+            mpt = cls.from_tensor_list(inputs, prefix, r)
         else:
-            mpt = cls.from_tensor_list(inputs, node_prefix=prefix, root_site=r)
+            mpt = cls.from_tensor_list(inputs, **kw)
     except Exception as e:  # noqa: BLE001
         ctx.oracle_fail(case, f"mps from_tensor_list n={n} root={r} raised {type(e).__name__}: {str(e)[:160]}")
         return
@@ -604,9 +765,27 @@ def _case_mpsconst(ctx, case, model_out):
     n, r, d, v, bonds, prefix = case["n"], case["r"], case["d"], case["v"], case["bonds"], case["prefix"]
     ctx.count(("mpsconst", n, r, d, v, str(bonds)), nontrivial=(r != 0 or bonds is not None or d != 2), corr=True)
     ctx.tally("mpsconst", f"d{d}" + ("+bonds" if bonds else ""))
+    style = case.get("args", "kw")
+    bl = None if bonds is None else list(bonds)
+    ctx.tally("mpsconst_args", style)
     try:
-        mps = MatrixProductState.constant_product_state(v, d, n, node_prefix=prefix, root_site=r,
-                                                        bond_dimensions=None if bonds is None else list(bonds))
+        if style == "pos":
+            mps = MatrixProductState.constant_product_state(v, d, n, prefix, r, bl)
+        elif style == "kwall":
+            mps = MatrixProductState.constant_product_state(bond_dimensions=bl, root_site=r, node_prefix=prefix,
+                                                            num_sites=n, dimension=d, state_value=v)
+        elif style == "default":
+            kw = {}
+            if prefix != "site":
+                kw["node_prefix"] = prefix
+            if r != 0:
+                kw["root_site"] = r
+            if bl is not None:
+                kw["bond_dimensions"] = bl
+            mps = MatrixProductState.constant_product_state(v, d, n, **kw)
+        else:
+            mps = MatrixProductState.constant_product_state(v, d, n, node_prefix=prefix, root_site=r,
+                                                            bond_dimensions=bl)
     except Exception as e:  # noqa: BLE001
         ctx.oracle_fail(case, f"mps constant_product_state(v={v}, d={d}, n={n}, root={r}, bonds={bonds}) raised "
                               f"{type(e).__name__}: {str(e)[:160]}")
@@ -645,6 +824,108 @@ def _case_mpsconst(ctx, case, model_out):
                         + "; ".join(probs[:4]))
 
 
+def _direct_tokens(case):
+    """Protocol tokens of the direct calls: `L` / `Lf` (final=True, the chain's site 0) / `R`."""
+    toks, lo = [], case["r"]
+    for step in case["order"]:
+        if step == "L":
+            lo -= 1
+            toks.append("Lf" if lo == 0 else "L")
+        else:
+            toks.append("R")
+    return toks
+
+
+def _case_mpsdirect(ctx, case, model_out):
+    """A chain assembled by hand: add_root(site r), then attach_node_left_end(node, tensor, final) and
+    attach_node_right_end(node, tensor) called directly, in any interleaving (from_tensor_list only ever
+    attaches the whole left side first).  Documented tensor formats: left end `[other virtual leg, parent leg,
+    open...]` (site 0: `[parent leg, open...]`, final=True), right end `[parent leg, other virtual leg, open...]`."""
+    from pytreenet.special_ttn.mps import MatrixProductTree, MatrixProductState, MatrixProductOperator
+    from pytreenet.core.node import Node
+    cls = {"mps": MatrixProductState, "mpo": MatrixProductOperator, "mpt": MatrixProductTree}[case["cls"]]
+    n, r, prefix, order = case["n"], case["r"], case["prefix"], case["order"]
+    base, _ = _mps_tensors(case)
+    inputs = [t.copy() for t in base]
+    nl = order.index("R") if "R" in order else len(order)
+    kind = "library order (left side first)" if "L" not in order[nl:] else \
+        ("right side first" if "R" not in order[order.index("L"):] else "interleaved")
+    ctx.count(("mpsdirect", n, r, case["cls"], "".join(order), case["seed"]),
+              nontrivial=(kind != "library order (left side first)"), corr=bool(model_out))
+    ctx.tally("mps_direct_order", kind)
+    ctx.tally("mps_direct_final_arg", case["final"])
+    if r == 0:
+        ctx.tally("mps_direct_root", "leftmost site (F-C19b candidate)")
+    what = f"hand-made chain ({case['cls']}, n={n}, root={r}, calls={''.join(order)})"
+    try:
+        mpt = cls()
+        mpt.add_root(Node(identifier=prefix + str(r)), inputs[r])
+        lo, hi = r, r
+        bare_root_right = False       # inside the first attach_node_right_end of a chain whose root is site 0
+        for step in order:
+            bare_root_right = (step == "R" and r == 0 and hi == 0)
+            if step == "L":
+                lo -= 1
+                node = Node(identifier=prefix + str(lo))
+                if case["final"] == "pos":
+                    mpt.attach_node_left_end(node, inputs[lo], lo == 0)
+                elif case["final"] == "omit" and lo != 0:
+                    mpt.attach_node_left_end(node, inputs[lo])          # final defaults to False
+                else:
+                    mpt.attach_node_left_end(node, inputs[lo], final=(lo == 0))
+            else:
+                hi += 1
+                mpt.attach_node_right_end(Node(identifier=prefix + str(hi)), inputs[hi])
+    except Exception as e:  # noqa: BLE001
+        if model_out and model_out[0] not in ("none", "bad-op") and type(e).__name__ != "NotCompatibleException":
+            ctx.corr_fail(case, f"{what}: library raised {type(e).__name__} but the model accepts the calls")
+        # F-C19b (candidate, see notes): only the first right attachment to a root that is the leftmost site
+        ctx.oracle_fail(case, f"{what} raised {type(e).__name__}: {str(e)[:160]}",
+                        finding=("F-C19b" if bare_root_right else None))
+        return
+    parsed = _parse_mps_model(model_out[0]) if model_out else None
+    if model_out and parsed is None:
+        ctx.corr_fail(case, f"{what}: model answered {model_out}")
+    elif parsed is not None:
+        nodes, left, right = parsed
+        impl_nodes = [(nid, mpt.nodes[nid].parent, list(mpt.nodes[nid].children)) for nid in mpt.nodes]
+        mod_nodes = [(prefix + str(i), None if p_ is None else prefix + str(p_), [prefix + str(c) for c in ch])
+                     for (i, p_, ch, _) in nodes]
+        if impl_nodes != mod_nodes:
+            ctx.corr_fail(case, f"{what}: structure impl={impl_nodes} model={mod_nodes}")
+        else:
+            for (i, _, _, legs) in nodes:
+                if sorted(legs) != list(range(base[i].ndim)) or \
+                        not np.array_equal(mpt.tensors[prefix + str(i)], np.transpose(base[i], legs)):
+                    ctx.corr_fail(case, f"{what}: tensor of site {i} is not the input transposed by the model's "
+                                        f"leg order {legs}")
+                    break
+        il = [nd.identifier for nd in mpt.left_nodes]
+        ir = [nd.identifier for nd in mpt.right_nodes]
+        if il != [prefix + str(i) for i in left] or ir != [prefix + str(i) for i in right]:
+            ctx.corr_fail(case, f"{what}: left/right lists impl={il}/{ir} model={left}/{right}")
+    probs = _mps_common_checks(mpt, n, r, prefix)
+    if not probs:
+        try:
+            got, _ = dense.ttn_dense(mpt, [prefix + str(i) for i in range(n)])
+            if not _close(got, chain_dense(base)):
+                probs.append("contraction differs from the chain A_0 A_1 ... A_(n-1) of the given tensors")
+        except Exception as e:  # noqa: BLE001
+            probs.append(f"dense contraction impossible: {type(e).__name__}: {str(e)[:100]}")
+        for i in range(n):
+            if not np.array_equal(inputs[i], base[i]):
+                probs.append(f"input tensor {i} was modified")
+    if probs:
+        finding = None
+        if r == 0 and n >= 2 and base[0].ndim >= 2:
+            # F-C19b: the root's first OPEN leg (axis 1 of `[right, open...]`) was taken for the bond to site 1
+            swapped = np.transpose(base[0], [1, 0] + list(range(2, base[0].ndim)))
+            t0 = mpt.tensors[prefix + "0"]
+            if t0.shape == swapped.shape and np.array_equal(t0, swapped) and not np.array_equal(t0, base[0]):
+                finding = "F-C19b"
+        ctx.oracle_fail(case, f"{what}: " + "; ".join(probs[:4]), finding=finding)
+
+
 # =============================================================================== (b) star / fork / binary
 
 def _shape_tok(shape):
@@ -679,13 +960,65 @@ def _compare_structure(ctx, case, what, ttn, model_line, to_lib, inputs=None):
             return
 
 
-def _star_shapes(case):
-    """Shapes of the specified tensors of a `star` case (same draws as `_case_star`)."""
-    return _star_spec(case)[1]
+def _star_names(case):
+    """(prefix, centre identifier); `None` in the case = argument omitted = the documented default of the class."""
+    center = case.get("center") or ("center" if case["cls"] == "network" else "central")
+    return (case.get("prefix") or "node"), center
 
 
-def _fork_shapes(case):
-    return _fork_spec(case)[1]
+def _star_legmode(case):
+    """default: every tensor's legs in the default order (centre: chain 0, chain 1, .., open; chain node: parent,
+    next, open) and no parent_leg argument; first: centre bond legs shuffled, explicit parent_leg for the first node
+    of every chain; all: ALL legs of the centre shuffled (bonds between open legs) and the non-parent legs of every
+    chain node shuffled (e.g. parent, open, next), explicit parent_leg wherever the wanted leg is not the default."""
+    return case.get("legmode") or ("first" if case.get("legperm") else "default")
+
+
+def _shuffle_legs(t, labels, perm):
+    """The tensor with its legs in the order `perm`.  Bond labels travel with their legs; the open legs are
+    numbered again in their NEW order: the library documents that open legs keep their relative order, and both
+    the reference and the dense contraction of the result list a node's open legs in that order."""
+    olab = sorted([l for l in labels if l[0] == "o"], key=lambda l: l[2])
+    it = iter(olab)
+    return np.transpose(t, perm), [next(it) if labels[a][0] == "o" else labels[a] for a in perm]
+
+
+def _attach_plan(calls, spec, root, mode, lrng):
+    """`calls`: [(key, child id, parent id)] in call order.  For every call the position of the wanted bond among the
+    parent's legs AT THAT MOMENT, from the documented convention (parent leg, child legs in attachment order, open
+    legs in their original order): number of neighbours so far + rank among the legs not yet attached.
+    Returns [(key, child id, parent_leg or None, rank, style)]."""
+    rem, natt, out = {}, {}, []
+    for nid, (_, labels) in spec.items():
+        rem[nid] = list(labels if nid == root else labels[1:])     # a non-root tensor offers its leg 0 to its parent
+        natt[nid] = 0
+    for key, nid, par in calls:
+        want = spec[nid][1][0]
+        rank = rem[par].index(want)
+        rem[par].pop(rank)
+        nv = (0 if par == root else 1) + natt[par]
+        natt[par] += 1
+        if mode == "default":
+            assert rank == 0
+            leg = None
+        elif mode == "first":
+            leg = nv + rank if par == root else None
+        else:
+            leg = nv + rank if (rank != 0 or lrng.random() < 0.5) else None
+        out.append((key, nid, leg, rank, lrng.choice(["kw", "pos"])))
+    return out
+
+
+def _star_calls(case, spec):
+    """[(chain, position, parent_leg or None, rank of the wanted leg among the parent's open legs, style)]"""
+    prefix, center = _star_names(case)
+    pos, calls = [0] * len(case["lens"]), []
+    for c in case["sched"]:
+        j = pos[c]
+        calls.append(((c, j), f"{prefix}{c}_{j}", center if j == 0 else f"{prefix}{c}_{j - 1}"))
+        pos[c] += 1
+    plan = _attach_plan(calls, spec, center, _star_legmode(case), random.Random(case["seed"] + 7))
+    return [(key[0], key[1], leg, rank, style) for (key, _, leg, rank, style) in plan]
 
 def _star_parent_map(prefix, center, lens):
     pm = {center: None}
@@ -700,8 +1033,18 @@ def _case_starconst(ctx, case, _m):
     v, d, L, C, prefix = case["v"], case["d"], case["L"], case["C"], case["prefix"]
     ctx.count(("starconst", v, d, L, C), nontrivial=(d != 2 or C > 1 or L > 1), corr=bool(_m))
     ctx.tally("star_const_dim", d)
+    style = case.get("args", "kw")
+    ctx.tally("starconst_args", style + (":prefix omitted" if style == "default" and prefix == "site" else ""))
     try:
-        st = StarTreeTensorState.constant_product_state(v, d, L, C, node_prefix=prefix)
+        if style == "pos":
+            st = StarTreeTensorState.constant_product_state(v, d, L, C, prefix)
+        elif style == "kwall":
+            st = StarTreeTensorState.constant_product_state(node_prefix=prefix, num_chains=C, chain_length=L,
+                                                            dimension=d, state_value=v)
+        elif style == "default" and prefix == "site":
+            st = StarTreeTensorState.constant_product_state(v, d, L, C)
+        else:
+            st = StarTreeTensorState.constant_product_state(v, d, L, C, node_prefix=prefix)
     except Exception as e:  # noqa: BLE001
         ctx.oracle_fail(case, f"star constant_product_state(v={v}, d={d}, chain_length={L}, num_chains={C}) raised "
                               f"{type(e).__name__}: {str(e)[:160]}")
@@ -745,9 +1088,12 @@ def _open_dims(nprng, cls, limit_state):
 def _star_spec(case):
     """Specified tensors of a `star` case: centre (bond_0..bond_{C-1}, open...), chain node (parent, next?, open...).
     Returns (spec {id: (array, labels)}, shapes {'center' | (c, j): shape}, ids)."""
-    lens, prefix, center = case["lens"], case["prefix"], case["center"]
+    lens = case["lens"]
+    prefix, center = _star_names(case)
+    mode = _star_legmode(case)
     C = len(lens)
     nprng = np.random.default_rng(case["seed"])
+    prng = np.random.default_rng(case["seed"] + 5)          # leg shuffles (separate stream)
     bond = {}
     for c in range(C):
         for j in range(lens[c]):
@@ -765,12 +1111,15 @@ def _star_spec(case):
         for k in opens:
             opens[k] = [1 for _ in opens[k]]
     border = list(range(C))
-    if case.get("legperm"):
+    if mode == "first":
         # the chains are attached to explicitly named legs of the centre (argument parent_leg): the centre tensor
         # carries its bond legs in a shuffled order
-        border = [int(x) for x in np.random.default_rng(case["seed"] + 5).permutation(C)]
+        border = [int(x) for x in prng.permutation(C)]
     ct = gen.rand_tensor(nprng, [bond[(c, 0)] for c in border] + opens[center])
-    spec[center] = (ct, [("b", c, 0) for c in border] + [("o", center, k) for k in range(len(opens[center]))])
+    clab = [("b", c, 0) for c in border] + [("o", center, k) for k in range(len(opens[center]))]
+    if mode == "all":
+        ct, clab = _shuffle_legs(ct, clab, [int(x) for x in prng.permutation(ct.ndim)])
+    spec[center] = (ct, clab)
     shapes["center"] = list(ct.shape)
     for c in range(C):
         for j in range(lens[c]):
@@ -779,40 +1128,54 @@ def _star_spec(case):
             last = j == lens[c] - 1
             sh = [bond[(c, j)]] + ([] if last else [bond[(c, j + 1)]]) + opens[nid]
             t = gen.rand_tensor(nprng, sh)
-            spec[nid] = (t, [("b", c, j)] + ([] if last else [("b", c, j + 1)])
-                         + [("o", nid, k) for k in range(len(opens[nid]))])
-            shapes[(c, j)] = list(sh)
+            lab = [("b", c, j)] + ([] if last else [("b", c, j + 1)]) + [("o", nid, k) for k in range(len(opens[nid]))]
+            if mode == "all" and t.ndim > 2:
+                # leg 0 stays the parent leg (add_chain_node always offers leg 0 of the new tensor); the bond to the
+                # next chain node sits anywhere among the open legs.  The open legs keep their relative order,
+                # which is what the library documents for them.
+                t, lab = _shuffle_legs(t, lab, [0] + [1 + int(x) for x in prng.permutation(t.ndim - 1)])
+            spec[nid] = (t, lab)
+            shapes[(c, j)] = list(t.shape)
     return spec, shapes, ids
 
 
 def _case_star(ctx, case, model_out):
     from pytreenet.special_ttn.star import StarTreeTensorNetwork, StarTreeTensorState, StarTreeOperator
     cls = {"state": StarTreeTensorState, "operator": StarTreeOperator, "network": StarTreeTensorNetwork}[case["cls"]]
-    lens, sched, prefix, center = case["lens"], case["sched"], case["prefix"], case["center"]
+    lens, sched = case["lens"], case["sched"]
+    prefix, center = _star_names(case)
+    mode = _star_legmode(case)
     C = len(lens)
-    ctx.count(("star", case["seed"]), nontrivial=(C > 1 or max(lens) > 1), corr=bool(model_out))
+    ctx.count(("star", case["seed"], mode), nontrivial=(C > 1 or max(lens) > 1), corr=bool(model_out))
     ctx.tally("star_chains", C)
+    ctx.tally("star_legmode", mode)
+    ctx.tally("star_ctor_args", case.get("ctor", "kw"))
     spec, _, ids = _star_spec(case)
+    calls = _star_calls(case, spec)
     try:
-        st = cls(central_node_identifier=center, non_center_prefix=prefix)
+        if case.get("ctor") == "default":
+            st = cls()                                   # documented defaults: "center" / "central", "node"
+        elif case.get("ctor") == "pos":
+            st = cls(center, prefix)
+        else:
+            st = cls(central_node_identifier=center, non_center_prefix=prefix)
         st.add_center_node(spec[center][0].copy())
-        pos = [0] * C
-        rem = [lab for lab in spec[center][1]]          # centre legs not yet attached, in current leg order
-        for c in sched:
-            if pos[c] == 0 and case.get("legperm"):
-                r = rem.index(("b", c, 0))
-                rem.pop(r)
-                # c chains are attached already (legs 0..c-1), the wanted leg is the r-th remaining one
-                st.add_chain_node(spec[f"{prefix}{c}_{pos[c]}"][0].copy(), c, parent_leg=c + r)
-                ctx.tally("star_explicit_parent_leg", "default leg" if r == 0 else "other leg")
+        for (c, j, leg, rank, style) in calls:
+            t = spec[f"{prefix}{c}_{j}"][0].copy()
+            if leg is None:
+                st.add_chain_node(t, c)
+            elif style == "pos":
+                st.add_chain_node(t, c, leg)
             else:
-                st.add_chain_node(spec[f"{prefix}{c}_{pos[c]}"][0].copy(), c)
-            pos[c] += 1
+                st.add_chain_node(t, c, parent_leg=leg)
+            if mode != "default":
+                ctx.tally("star_explicit_parent_leg", ("first node" if j == 0 else "later node") + ": "
+                          + ("omitted" if leg is None else ("default leg" if rank == 0 else "other leg")))
     except Exception as e:  # noqa: BLE001
         if model_out and model_out[0] != "none":
             ctx.corr_fail(case, f"star: library raised {type(e).__name__} but the model accepts the calls")
-        ctx.oracle_fail(case, f"star add_chain_node schedule {sched} (lens {lens}) raised {type(e).__name__}: "
-                              f"{str(e)[:160]}")
+        ctx.oracle_fail(case, f"star add_chain_node schedule {sched} (lens {lens}, legs={mode}, "
+                              f"parent_leg={[x[2] for x in calls]}) raised {type(e).__name__}: {str(e)[:160]}")
         return
     if model_out:
         _compare_structure(ctx, case, "star", st, model_out[0],
@@ -828,8 +1191,26 @@ def _case_star(ctx, case, model_out):
         ref = _labelled_reference(spec, ids)
         if not _close(got, ref):
             probs.append("contraction differs from the network of the specified tensors")
+    if not probs:
+        # the documented bookkeeping of the class
+        try:
+            if st.num_chains() != C:
+                probs.append(f"num_chains() = {st.num_chains()}, expected {C}")
+            for c in range(C):
+                want = [f"{prefix}{c}_{j}" for j in range(lens[c])]
+                if st.chain_length(c) != lens[c] or [nd.identifier for nd in st.chains[c]] != want:
+                    probs.append(f"chain {c}: chain_length {st.chain_length(c)}, nodes "
+                                 f"{[nd.identifier for nd in st.chains[c]]}, expected {want}")
+                if [st.chain_id(c, j) for j in range(lens[c])] != want:
+                    probs.append(f"chain_id({c}, j) = {[st.chain_id(c, j) for j in range(lens[c])]}")
+            if st.central_node_id != center or st.central_node.identifier != center:
+                probs.append(f"central_node_id {st.central_node_id} / central_node {st.central_node.identifier}, "
+                             f"expected {center}")
+        except Exception as e:  # noqa: BLE001
+            probs.append(f"bookkeeping accessors raised {type(e).__name__}: {str(e)[:100]}")
     if probs:
-        ctx.oracle_fail(case, f"star from tensors (lens={lens}, schedule={sched}, {case['cls']}): " + "; ".join(probs[:4]))
+        ctx.oracle_fail(case, f"star from tensors (lens={lens}, schedule={sched}, {case['cls']}, legs={mode}, "
+                              f"parent_leg={[x[2] for x in calls]}): " + "; ".join(probs[:4]))
 
 
 def _case_any(ctx, case, model_out):
@@ -837,7 +1218,8 @@ def _case_any(ctx, case, model_out):
     the model must accept or reject alike; accepted networks must be well-formed and match the model."""
     from pytreenet.special_ttn.star import StarTreeTensorNetwork
     from pytreenet.special_ttn.fttn import ForkTreeTensorNetwork
-    star = case["kind"] == "starany"
+    star = case["kind"].startswith("starany")
+    withleg = case["kind"].endswith("l")            # calls carry a parent_leg (or None) before the shape
     inputs, err = {}, None
     try:
         if star:
@@ -846,10 +1228,14 @@ def _case_any(ctx, case, model_out):
             inputs["center"] = t
             net.add_center_node(t.copy())
             pos = {}
-            for c, sh in case["calls"]:
+            for call in case["calls"]:
+                c, sh = call[0], call[-1]
                 t = (np.arange(int(np.prod(sh)), dtype=float) + 1).reshape(sh)
                 nid = f"node{c}_{pos.get(c, 0)}"
-                net.add_chain_node(t.copy(), c)
+                if withleg and call[1] is not None:
+                    net.add_chain_node(t.copy(), c, parent_leg=call[1])
+                else:
+                    net.add_chain_node(t.copy(), c)
                 inputs[nid] = t
                 pos[c] = pos.get(c, 0) + 1
         else:
@@ -858,13 +1244,20 @@ def _case_any(ctx, case, model_out):
             for call in case["calls"]:
                 sh = call[-1]
                 t = (np.arange(int(np.prod(sh)), dtype=float) + 1).reshape(sh)
+                leg = call[-2] if withleg else None
                 if call[0] == "m":
-                    net.add_main_chain_node(t.copy())
+                    if leg is None:
+                        net.add_main_chain_node(t.copy())
+                    else:
+                        net.add_main_chain_node(t.copy(), parent_leg=leg)
                     inputs[f"main{nm}"] = t
                     nm += 1
                 else:
                     i = call[1]
-                    net.add_sub_chain_node(t.copy(), i)
+                    if leg is None:
+                        net.add_sub_chain_node(t.copy(), i)
+                    else:
+                        net.add_sub_chain_node(t.copy(), i, parent_leg=leg)
                     inputs[f"sub{i}_{pos.get(i, 0)}"] = t
                     pos[i] = pos.get(i, 0) + 1
     except Exception as e:  # noqa: BLE001
@@ -908,10 +1301,30 @@ def _case_forkconst(ctx, case, _m):
     mp, sp = case["prefixes"]
     nprng = np.random.default_rng(case["seed"])
     local = gen.rand_tensor(nprng, (d,))
+    if case.get("real"):
+        local = np.ascontiguousarray(local.real)
+    style = case.get("args", "kw")
     ctx.count(("forkconst", w, h, bd, d), nontrivial=(bd > 1 or w > 2 or h > 2), corr=bool(_m))
     ctx.tally("fork_const_bond", bd)
+    ctx.tally("forkconst_args", style + ("/real" if case.get("real") else ""))
     try:
-        f = constant_ftps(local.copy(), w, h, bond_dim=bd, main_identifier_prefix=mp, subchain_identifier_prefix=sp)
+        if style == "pos":
+            f = constant_ftps(local.copy(), w, h, bd, mp, sp)
+        elif style == "kwall":
+            f = constant_ftps(subchain_identifier_prefix=sp, main_identifier_prefix=mp, bond_dim=bd, height=h,
+                              width=w, local_state=local.copy())
+        elif style == "default":
+            kw = {}
+            if bd != 1:
+                kw["bond_dim"] = bd
+            if mp != "main":
+                kw["main_identifier_prefix"] = mp
+            if sp != "sub":
+                kw["subchain_identifier_prefix"] = sp
+            f = constant_ftps(local.copy(), w, h, **kw)
+        else:
+            f = constant_ftps(local.copy(), w, h, bond_dim=bd, main_identifier_prefix=mp,
+                              subchain_identifier_prefix=sp)
     except Exception as e:  # noqa: BLE001
         ctx.oracle_fail(case, f"constant_ftps(width={w}, height={h}, bond_dim={bd}, d={d}) raised "
                               f"{type(e).__name__}: {str(e)[:160]}")
@@ -948,17 +1361,18 @@ def _fork_spec(case):
     """Specified tensors of a `fork` case: every node (parent?, neighbours in attachment order, open...).
     Returns (spec {id: (array, labels)}, {'creation': [ids in call order], 'shape': {id: shape}}, parent map)."""
     nmain, sublens, events = case["nmain"], case["sublens"], case["events"]
+    mp, sp = _fork_names(case)
     nprng = np.random.default_rng(case["seed"])
-    pm = _fork_parent_map("main", "sub", nmain, sublens)
+    pm = _fork_parent_map(mp, sp, nmain, sublens)
     attach = {nid: [] for nid in pm}
     made, sub = 0, [0] * nmain
     creation = []
     for ev in events:
         if ev[0] == "m":
-            nid = f"main{made}"
+            nid = f"{mp}{made}"
             made += 1
         else:
-            nid = f"sub{ev[1]}_{sub[ev[1]]}"
+            nid = f"{sp}{ev[1]}_{sub[ev[1]]}"
             sub[ev[1]] += 1
         creation.append(nid)
         if pm[nid] is not None:
@@ -978,7 +1392,45 @@ def _fork_spec(case):
             + [("o", nid, k) for k in range(len(opens[nid]))]
         spec[nid] = (gen.rand_tensor(nprng, sh), lab)
         shape[nid] = list(sh)
+    if case.get("legmode", "default") == "explicit":
+        # tensors whose legs are NOT in the default order: the bonds to the next main node / the sub-chain head /
+        # the next sub-chain node sit anywhere among the open legs (root: all legs shuffled; other nodes keep
+        # leg 0 for their parent, which is the leg add_*_chain_node always offers)
+        prng = np.random.default_rng(case["seed"] + 5)
+        for nid in pm:
+            t, lab = spec[nid]
+            k0 = 0 if pm[nid] is None else 1
+            if t.ndim - k0 >= 2:
+                t, lab = _shuffle_legs(t, lab, list(range(k0)) + [k0 + int(x) for x in prng.permutation(t.ndim - k0)])
+                spec[nid] = (t, lab)
+                shape[nid] = list(t.shape)
     return spec, {"creation": creation, "shape": shape}, pm
+
+
+def _fork_names(case):
+    """(main prefix, sub prefix); `None` in the case = constructor called without arguments (defaults)."""
+    p_ = case.get("prefixes")
+    return (p_[0], p_[1]) if p_ else ("main", "sub")
+
+
+def _fork_calls(case, spec, creation, pm):
+    """[(event, node id, parent_leg or None, style)] - the leg is the position of the wanted bond among the
+    parent's legs at the moment of the call (see `_attach_plan`)."""
+    root = next(nid for nid in pm if pm[nid] is None)
+    calls = [(tuple(ev), nid, pm[nid]) for ev, nid in zip(case["events"], creation) if pm[nid] is not None]
+    mode = "all" if case.get("legmode", "default") == "explicit" else "default"
+    plan = {nid: (leg, rank, style)
+            for (_, nid, leg, rank, style) in _attach_plan(calls, spec, root, mode, random.Random(case["seed"] + 7))}
+    return [(ev, nid) + ((plan[nid][0], plan[nid][2]) if nid in plan else (None, "kw"))
+            for ev, nid in zip(case["events"], creation)]
+
+
+def _fork_ranks(case, spec, creation, pm):
+    root = next(nid for nid in pm if pm[nid] is None)
+    calls = [(tuple(ev), nid, pm[nid]) for ev, nid in zip(case["events"], creation) if pm[nid] is not None]
+    mode = "all" if case.get("legmode", "default") == "explicit" else "default"
+    return {nid: rank for (_, nid, _, rank, _) in _attach_plan(calls, spec, root, mode,
+                                                               random.Random(case["seed"] + 7))}
 
 
 def _fork_tok(t, mp="main", sp="sub"):
@@ -990,24 +1442,52 @@ def _case_fork(ctx, case, model_out):
     cls = {"state": ForkTreeProductState, "operator": ForkTreeProductOperator,
            "network": ForkTreeTensorNetwork}[case["cls"]]
     nmain, sublens, events = case["nmain"], case["sublens"], case["events"]
-    ctx.count(("fork", case["seed"]), nontrivial=True, corr=bool(model_out))
+    mp, sp = _fork_names(case)
+    mode = case.get("legmode", "default")
+    ctx.count(("fork", case["seed"], mode), nontrivial=True, corr=bool(model_out))
     ctx.tally("fork_main", nmain)
+    ctx.tally("fork_legmode", mode)
+    ctx.tally("fork_prefixes", "omitted (defaults)" if not case.get("prefixes") else "/".join(case["prefixes"]))
     spec, info, pm = _fork_spec(case)
     creation = info["creation"]
+    calls = _fork_calls(case, spec, creation, pm)
+    ranks = _fork_ranks(case, spec, creation, pm)
     try:
-        f = cls()
-        for ev, nid in zip(events, creation):
+        if not case.get("prefixes"):
+            f = cls()
+        elif case.get("ctor") == "pos":
+            f = cls(mp, sp)
+        else:
+            f = cls(main_identifier_prefix=mp, subchain_identifier_prefix=sp)
+        for (ev, nid, leg, style) in calls:
+            t = spec[nid][0].copy()
             if ev[0] == "m":
-                f.add_main_chain_node(spec[nid][0].copy())
+                if leg is None:
+                    f.add_main_chain_node(t)
+                elif style == "pos":
+                    f.add_main_chain_node(t, leg)
+                else:
+                    f.add_main_chain_node(t, parent_leg=leg)
             else:
-                f.add_sub_chain_node(spec[nid][0].copy(), ev[1])
+                if leg is None:
+                    f.add_sub_chain_node(t, ev[1])
+                elif style == "pos":
+                    f.add_sub_chain_node(t, ev[1], leg)
+                else:
+                    f.add_sub_chain_node(tensor=t, subchain_index=ev[1], parent_leg=leg)
+            if mode != "default" and nid in ranks:
+                what = "main node" if ev[0] == "m" else ("sub-chain head" if nid.endswith("_0") else "later sub node")
+                ctx.tally("fork_explicit_parent_leg", what + ": "
+                          + ("omitted" if leg is None else ("default leg" if ranks[nid] == 0 else "other leg")))
     except Exception as e:  # noqa: BLE001
         if model_out and model_out[0] != "none":
             ctx.corr_fail(case, f"fork: library raised {type(e).__name__} but the model accepts the calls")
-        ctx.oracle_fail(case, f"fork schedule {events} raised {type(e).__name__}: {str(e)[:160]}")
+        ctx.oracle_fail(case, f"fork schedule {events} (legs={mode}, parent_leg={[x[2] for x in calls]}) raised "
+                              f"{type(e).__name__}: {str(e)[:160]}")
         return
     if model_out:
-        _compare_structure(ctx, case, "fork", f, model_out[0], _fork_tok, {k: v[0] for k, v in spec.items()})
+        _compare_structure(ctx, case, "fork", f, model_out[0], lambda t: _fork_tok(t, mp, sp),
+                           {k: v[0] for k, v in spec.items()})
     probs = list(dense.well_formed(f))
     p = _ids_problem(f, pm.keys()) or _parents_problem(f, pm)
     if p:
@@ -1018,8 +1498,25 @@ def _case_fork(ctx, case, model_out):
         ref = _labelled_reference(spec, ids)
         if not _close(got, ref):
             probs.append("contraction differs from the network of the specified tensors")
+    if not probs:
+        # the documented bookkeeping of the class
+        try:
+            wm = [f"{mp}{i}" for i in range(nmain)]
+            if f.main_length() != nmain or [nd.identifier for nd in f.main_chain] != wm or \
+                    [f.main_chain_id(i) for i in range(nmain)] != wm:
+                probs.append(f"main chain: main_length {f.main_length()}, nodes "
+                             f"{[nd.identifier for nd in f.main_chain]}, expected {wm}")
+            for i in range(nmain):
+                ws = [f"{sp}{i}_{j}" for j in range(sublens[i])]
+                if f.subchain_length(i) != sublens[i] or [nd.identifier for nd in f.sub_chains[i]] != ws or \
+                        [f.subchain_id(i, j) for j in range(sublens[i])] != ws:
+                    probs.append(f"sub-chain {i}: subchain_length {f.subchain_length(i)}, nodes "
+                                 f"{[nd.identifier for nd in f.sub_chains[i]]}, expected {ws}")
+        except Exception as e:  # noqa: BLE001
+            probs.append(f"bookkeeping accessors raised {type(e).__name__}: {str(e)[:100]}")
     if probs:
-        ctx.oracle_fail(case, f"fork from tensors (main={nmain}, sub={sublens}, events={events}): " + "; ".join(probs[:4]))
+        ctx.oracle_fail(case, f"fork from tensors (main={nmain}, sub={sublens}, events={events}, legs={mode}, "
+                              f"parent_leg={[x[2] for x in calls]}): " + "; ".join(probs[:4]))
 
 
 def _case_binary(ctx, case, _m):
@@ -1028,10 +1525,32 @@ def _case_binary(ctx, case, _m):
     pp, vp = case["prefixes"]
     nprng = np.random.default_rng(case["seed"])
     phys = gen.rand_tensor(nprng, (bd, d))
-    ctx.count(("binary", nphys, bd, d), nontrivial=(nphys > 2 or bd > 1), corr=bool(_m))
+    nop = case.get("phys_opens", 1)
+    if nop == 2 and (2 * d) ** nphys > 40000:
+        nop = 1
+    if nop == 2:
+        # a physical tensor with two open legs (bond, d, 2): the docstring only asks for "the tensor for the
+        # physical sites"; its leg 0 is the bond
+        phys = gen.rand_tensor(nprng, (bd, d, 2))
+    style = case.get("args", "kw")
+    ctx.count(("binary", nphys, bd, d, nop), nontrivial=(nphys > 2 or bd > 1), corr=bool(_m))
     ctx.tally("binary_nphys", nphys)
+    ctx.tally("binary_args", f"{style}/open legs {nop}")
     try:
-        b = generate_binary_ttns(nphys, bd, phys.copy(), phys_prefix=pp, virtual_prefix=vp)
+        if style == "pos":
+            b = generate_binary_ttns(nphys, bd, phys.copy(), pp, vp)
+        elif style == "kwall":
+            b = generate_binary_ttns(virtual_prefix=vp, phys_prefix=pp, phys_tensor=phys.copy(), bond_dim=bd,
+                                     num_phys=nphys)
+        elif style == "default":
+            kw = {}
+            if pp != "site":
+                kw["phys_prefix"] = pp
+            if vp != "node":
+                kw["virtual_prefix"] = vp
+            b = generate_binary_ttns(nphys, bd, phys.copy(), **kw)
+        else:
+            b = generate_binary_ttns(nphys, bd, phys.copy(), phys_prefix=pp, virtual_prefix=vp)
     except Exception as e:  # noqa: BLE001
         ctx.oracle_fail(case, f"generate_binary_ttns(num_phys={nphys}, bond_dim={bd}, d={d}) raised "
                               f"{type(e).__name__}: {str(e)[:160]}")
@@ -1064,14 +1583,14 @@ def _case_binary(ctx, case, _m):
             if t.shape[-1] != 1 or any(s != bd for s in t.shape[:-1]):
                 probs.append(f"virtual node {nid} has shape {t.shape}")
         for nid in phys_ids:
-            if nid in b.nodes and (b.nodes[nid].children or b.tensors[nid].shape != (bd, d)):
+            if nid in b.nodes and (b.nodes[nid].children or b.tensors[nid].shape != phys.shape):
                 probs.append(f"physical node {nid}: children {b.nodes[nid].children}, shape {b.tensors[nid].shape}")
     if not probs:
         order = phys_ids + sorted(virt)
         vec = dense.ttns_vector(b, order)
         ref = np.array([1.0 + 0j])
         for _ in phys_ids:
-            ref = np.kron(ref, phys[0])
+            ref = np.kron(ref, phys[0].reshape(-1))
         if not _close(vec, ref):
             probs.append("contraction is not the product of the physical tensors' first bond slice")
     if probs:
@@ -1091,6 +1610,26 @@ def _reference_tree(par, order, names):
         else:
             ts.add_child_to_parent(g, names[par[x]])
     return ts
+
+
+def _reference_ttn(par, order, names, state=True):
+    """The same reference tree as a full network (TreeTensorNetworkState is a TreeStructure too): bonds of
+    dimension 1, one open leg of dimension 2 per node, children attached in `order`."""
+    from pytreenet.ttns import TreeTensorNetworkState
+    from pytreenet.core.ttn import TreeTensorNetwork
+    from pytreenet.core.node import Node
+    nkids = {i: sum(1 for c in order if par[c] == i) for i in range(len(par))}
+    net = TreeTensorNetworkState() if state else TreeTensorNetwork()
+    for x in order:
+        t = np.zeros([1] * ((0 if par[x] < 0 else 1) + nkids[x]) + [2], dtype=complex)
+        t[..., 0] = 1
+        if par[x] < 0:
+            net.add_root(Node(identifier=names[x]), t)
+        else:
+            pn = net.nodes[names[par[x]]]
+            net.add_child_to_parent(Node(identifier=names[x]), t, 0, names[par[x]],
+                                    (0 if pn.parent is None else 1) + len(pn.children))
+    return net
 
 
 def _case_fromtensor(ctx, case, model_out):
@@ -1122,10 +1661,26 @@ def _case_fromtensor(ctx, case, model_out):
         M = sum(dense.kron_all([gen.rand_tensor(nprng, (d, d)) for d in ldims]) for _ in range(k))
         T = np.asarray(M).reshape(ldims + ldims)
     leg_dict = {names[i]: perm[i] for i in range(n)}
+    if case.get("ld_shuffle"):
+        # the dictionary's insertion order is no part of the contract
+        items = list(leg_dict.items())
+        random.Random(case["seed"] + 1).shuffle(items)
+        leg_dict = dict(items)
+    marg = case.get("mode_arg", "pos")
+    ctx.tally("fromtensor_args", f"reference {case.get('ref', 'structure')}/mode {marg}"
+              + ("/leg_dict shuffled" if case.get("ld_shuffle") else ""))
     try:
-        ts = _reference_tree(par, order, names)
+        ts = _reference_ttn(par, order, names) if case.get("ref") == "ttns" else _reference_tree(par, order, names)
         T_in = T.copy()
-        ttno = TTNO.from_tensor(ts, T_in, dict(leg_dict), Decomposition[mode])
+        if marg == "omit" and mode == "QR":
+            ttno = TTNO.from_tensor(ts, T_in, dict(leg_dict))           # documented default: QR
+        elif marg == "kw":
+            ttno = TTNO.from_tensor(ts, T_in, dict(leg_dict), mode=Decomposition[mode])
+        elif marg == "kwall":
+            ttno = TTNO.from_tensor(mode=Decomposition[mode], leg_dict=dict(leg_dict), tensor=T_in,
+                                    reference_tree=ts)
+        else:
+            ttno = TTNO.from_tensor(ts, T_in, dict(leg_dict), Decomposition[mode])
     except Exception as e:  # noqa: BLE001
         ctx.oracle_fail(case, f"TTNO.from_tensor(par={par}, dims={dims}, legs={perm}, mode={mode}, op={kind}) raised "
                               f"{type(e).__name__}: {str(e)[:160]}")
@@ -1244,6 +1799,17 @@ def _term_strings(ham, index_of, nn_name, ext_name):
     return out
 
 
+def _canon_terms(terms):
+    """Canonical form of a term list `coeff,symbol,siteOp-siteOp`: the property fixes WHICH terms exist (one field
+    term per node, one coupling term per edge), not their position in the list nor the order of the two factors
+    inside a coupling term.  Sorted multiset (multiplicities kept) of terms with sorted factors."""
+    out = []
+    for t in terms:
+        coeff, sym, ops = t.split(",", 2)
+        out.append((coeff, sym, tuple(sorted(ops.split("-")))))
+    return sorted(out)
+
+
 def _case_gridpairs(ctx, case, model_out):
     from pytreenet.operators.models import _find_nn_pairs, _grid_from_structure
     rows, cols = case["rows"], case["cols"]
@@ -1294,14 +1860,16 @@ def _case_model(ctx, case, model_out):
     triv = (J in (0.0, 1.0) and g in (0.0, 1.0))
     ctx.tally("model_shape", shape + ("/flipped" if flipped else ""))
     # ---- build the argument and the independent adjacency
+    nm = case.get("names", "s")
+    as_net = case.get("ref") == "ttns"
     if shape in ("tree", "pairs"):
         par, order = case["par"], case["order"]
         n = len(par)
-        names = {i: f"s{i}" for i in range(n)}
+        names = {i: f"{nm}{i}" for i in range(n)}
         sites = [names[i] for i in range(n)]
         edges = [(names[p], names[i]) for i, p in enumerate(par) if p >= 0]
         if shape == "tree":
-            arg = _reference_tree(par, order, names)
+            arg = _reference_ttn(par, order, names) if as_net else _reference_tree(par, order, names)
         else:
             arg = [(a, b) if rng.random() < 0.5 else (b, a) for (a, b) in edges]
             rng.shuffle(arg)
@@ -1309,30 +1877,36 @@ def _case_model(ctx, case, model_out):
         nontriv = n > 2 and not triv
     elif shape == "chain":
         n = case["n"]
-        names = {i: f"s{i}" for i in range(n)}
+        names = {i: f"{nm}{i}" for i in range(n)}
         sites = [names[i] for i in range(n)]
         edges = [(names[i], names[i + 1]) for i in range(n - 1)]
         par = gen.reroot([-1] + list(range(n - 1)), case["root"])
-        arg = _reference_tree(par, _chain_order(n, case["root"]), names)
+        arg = (_reference_ttn if as_net else _reference_tree)(par, _chain_order(n, case["root"]), names)
         key = (shape, n, case["root"])
         nontriv = n > 2 and not triv
     else:
         rows, cols, prefix = case["rows"], case["cols"], case["prefix"]
-        sites = [f"{prefix}{i}_{j}" for i in range(rows) for j in range(cols)]
+        cell = {(i, j): f"{prefix}{i}_{j}" for i in range(rows) for j in range(cols)}
+        if shape == "gridarr" and case.get("gridnames") == "arbitrary":
+            # an identifier array need not follow the prefix pattern: arbitrary distinct names
+            nums = list(range(rows * cols))
+            random.Random(case["seed"] + 3).shuffle(nums)
+            cell = {(i, j): f"v{nums[i * cols + j]}" for i in range(rows) for j in range(cols)}
+        sites = [cell[(i, j)] for i in range(rows) for j in range(cols)]
         edges = []
         for i in range(rows):
             for j in range(cols):
                 if i + 1 < rows:
-                    edges.append((f"{prefix}{i}_{j}", f"{prefix}{i + 1}_{j}"))
+                    edges.append((cell[(i, j)], cell[(i + 1, j)]))
                 if j + 1 < cols:
-                    edges.append((f"{prefix}{i}_{j}", f"{prefix}{i}_{j + 1}"))
+                    edges.append((cell[(i, j)], cell[(i, j + 1)]))
         if shape == "grid":
             arg = (prefix, rows, cols)
         else:
             arg = np.zeros((rows, cols), dtype=object)
             for i in range(rows):
                 for j in range(cols):
-                    arg[i, j] = f"{prefix}{i}_{j}"
+                    arg[i, j] = cell[(i, j)]
         key = (shape, rows, cols)
         nontriv = rows > 1 and cols > 1 and not triv
     ctx.count(("model",) + key + (flipped, J, g), nontrivial=nontriv, corr=bool(model_out))
@@ -1343,16 +1917,27 @@ def _case_model(ctx, case, model_out):
             fn = models.flipped_ising_model_2D if flipped else models.ising_model_2D
         else:
             fn = models.flipped_ising_model if flipped else models.ising_model
-        ham = fn(arg, g, J)
+        call = case.get("call", "pos")
+        ctx.tally("model_call", call + ("/network as reference" if as_net else "")
+                  + ("/arbitrary identifiers" if case.get("gridnames") == "arbitrary" else ""))
+        if call == "default":
+            assert J == 1.0
+            ham = fn(arg, g)                        # third argument omitted: documented default 1.0
+        elif call == "kw" and grid:
+            ham = fn(coupling=J, ext_magn=g, grid=arg)
+        elif call == "kw":
+            ham = fn(factor=J, ext_magn=g, ref_tree=arg)
+        else:
+            ham = fn(arg, g, J)
     except Exception as e:  # noqa: BLE001
         ctx.oracle_fail(case, f"{'flipped ' if flipped else ''}Ising builder ({shape}) raised {type(e).__name__}: "
                               f"{str(e)[:160]}")
         return
     # ---- correspondence
     if grid:
-        idx = {s: s[len(case["prefix"]):] for s in sites}
+        idx = {cell[(i, j)]: f"{i}_{j}" for i in range(rows) for j in range(cols)}
     else:
-        idx = {s: s[1:] for s in sites}
+        idx = {s: s[len(nm):] for s in sites}
     try:
         impl_terms = _term_strings(ham, idx, nn_name, ext_name)
     except KeyError as e:
@@ -1366,13 +1951,13 @@ def _case_model(ctx, case, model_out):
         except Exception as e:  # noqa: BLE001
             ctx.oracle_fail(case, f"_find_nn_pairs raised {type(e).__name__}")
         mod = model_out[1].split(";") if model_out[1] else []
-        # single-site part comes from a Python set: compare it as a multiset, the pair part in order
-        nsingle = sum(1 for t in mod if ",g," in t)
-        if sorted(mod[:nsingle]) != sorted(impl_terms[:nsingle]) or mod[nsingle:] != impl_terms[nsingle:]:
+        # neither the order of the terms in the list, nor of the neighbour pairs, nor of the two factors of a
+        # coupling term is part of the property (and the single-site part comes from a Python set): multisets
+        if _canon_terms(mod) != _canon_terms(impl_terms):
             ctx.corr_fail(case, f"2-D Ising terms {rows}x{cols}: impl={impl_terms} model={mod}")
     elif shape in ("tree", "chain") and model_out:
         mod = model_out[0].split(";") if model_out[0] else []
-        if mod != impl_terms:
+        if _canon_terms(mod) != _canon_terms(impl_terms):
             ctx.corr_fail(case, f"Ising terms ({shape}): impl={impl_terms} model={mod}")
     # ---- oracle
     order = sorted(sites)
@@ -1459,6 +2044,41 @@ def _case_nnham(ctx, case, _m):
                     if (fr, sym) != exp:
                         ctx.oracle_fail(case, f"single_site_operators[{s}] has factor {(fr, sym)} expected {exp}")
                         break
+            var = case.get("ssvar")
+            if var:
+                # the remaining documented arguments: a factor PER SITE (same order as the identifiers),
+                # operator_names (keys of the result), with_factor=False (bare tensor products)
+                ctx.tally("single_site_operators_variant", var)
+                kw, keys = {}, list(dict_order)
+                facs = [(Fraction(1), "1")] * n
+                if var == "factorlist":
+                    facs = [(Fraction(k_ + 1, 2), f"c{k_}") for k_ in range(n)]
+                    kw["factor"] = list(facs)
+                if "names" in var:
+                    keys = [f"op{k_}" for k_ in range(n)]
+                    kw["operator_names"] = list(keys)
+                if "nofactor" in var:
+                    kw["with_factor"] = False
+                ops2 = single_site_operators(a_arg, struct, **kw)
+                if list(ops2.keys()) != keys:
+                    ctx.oracle_fail(case, f"single_site_operators({var}) keys {list(ops2.keys())} expected {keys}")
+                else:
+                    for k_, key_ in enumerate(keys):
+                        val = ops2[key_]
+                        tp = val if "nofactor" in var else val[2]
+                        site = dict_order[k_]
+                        ok = list(dict(tp).keys()) == [site] and (
+                            dict(tp)[site] == a_arg if isinstance(a_arg, str)
+                            else np.array_equal(dict(tp)[site], opA))
+                        if "nofactor" not in var:
+                            ok = ok and isinstance(val, tuple) and (val[0], val[1]) == facs[k_]
+                        elif isinstance(val, tuple):
+                            ok = False
+                        if not ok:
+                            ctx.oracle_fail(case, f"single_site_operators({var})[{key_}] = {val!r:.120}, expected "
+                                                  f"{'' if 'nofactor' in var else str(facs[k_]) + ' x '}the operator "
+                                                  f"on site {site}")
+                            break
         else:
             edges = [(names[p], names[i]) for i, p in enumerate(par) if p >= 0]
             if case["structure"] == "tree":
@@ -1495,7 +2115,9 @@ def _case_exact(ctx, case, _m):
     sites = [f"s{i}" for i in range(n)]
     probs = []
     try:
-        ex = (eo.flipped_exact_ising_hamiltonian if flipped else eo.exact_ising_hamiltonian)(J, g, n)
+        efn = eo.flipped_exact_ising_hamiltonian if flipped else eo.exact_ising_hamiltonian
+        ctx.tally("exact_call", case.get("call", "pos"))
+        ex = efn(num_sites=n, g=g, coupling_strength=J) if case.get("call") == "kw" else efn(J, g, n)
         ref = ising_reference(sites, [(sites[i], sites[i + 1]) for i in range(n - 1)], J, g, A, B)
         if not _close(ex, ref, scale=max(1.0, abs(J), abs(g))):
             probs.append(f"exact Ising chain differs from -J sum A_i A_(i+1) - g sum B_i by {np.abs(ex - ref).max():.3g}")
@@ -1525,6 +2147,69 @@ def _case_exact(ctx, case, _m):
         ctx.oracle_fail(case, f"exact builders (n={n}, J={J!r}, g={g!r}, flipped={flipped}): " + "; ".join(probs[:3]))
 
 
+def _case_magn(ctx, case, _m):
+    """models.local_magnetisation(structure, with_factor) and models.total_magnetisation(list of arrays)."""
+    from pytreenet.operators.models import local_magnetisation, total_magnetisation
+    par, order, nm = case["par"], case["order"], case["names"]
+    n = len(par)
+    names = {i: f"{nm}{i}" for i in range(n)}
+    ids = [names[x] for x in order]
+    rng = random.Random(case["seed"])
+    nprng = np.random.default_rng(case["seed"])
+    wf = case["with_factor"]
+    ctx.count(("magn", case["seed"]), nontrivial=(n > 1))
+    ctx.tally("magnetisation", f"{case['structure']}/with_factor={'omitted' if wf is None else wf}")
+    if case["structure"] == "tree":
+        struct = _reference_tree(par, order, names)
+    elif case["structure"] == "ttns":
+        struct = _reference_ttn(par, order, names)
+    else:
+        ids = list(ids)
+        rng.shuffle(ids)
+        struct = list(ids)
+    probs = []
+    try:
+        res = local_magnetisation(struct) if wf is None else \
+            (local_magnetisation(struct, wf) if rng.random() < 0.5 else local_magnetisation(struct, with_factor=wf))
+        if set(res.keys()) != set(ids) or len(res) != n:
+            probs.append(f"local_magnetisation keys {list(res.keys())} expected {ids}")
+        else:
+            for s in ids:
+                val = res[s]
+                tp = val if wf is False else (val[2] if isinstance(val, tuple) and len(val) == 3 else None)
+                if tp is None or isinstance(tp, tuple) or list(dict(tp).keys()) != [s] or \
+                        not np.array_equal(np.asarray(dict(tp)[s]), PAULI["Z"]):
+                    probs.append(f"local_magnetisation[{s}] is not Z on site {s}")
+                    break
+                if wf is not False and (val[0], val[1]) != (Fraction(1), "1"):
+                    probs.append(f"local_magnetisation[{s}] has factor {(val[0], val[1])}, documented: 1")
+                    break
+        T, sc = case["T"], case["scale"]
+        arrs = []
+        for _ in range(n):
+            a = nprng.normal(size=T) * sc
+            arrs.append(a + 1j * nprng.normal(size=T) * sc if case["complex"] else a)
+        given = [a.copy() for a in arrs]
+        tot = total_magnetisation(given)
+        ref = [sum(arrs[i][t] for i in range(n)) / n for t in range(T)]
+        tot = np.asarray(tot)
+        if tot.shape != (T,) or not bool(np.abs(tot - np.asarray(ref)).max() <= TOL * max(abs(x) for a in arrs
+                                                                                               for x in a)):
+            probs.append(f"total_magnetisation differs from (1/L) sum_i m_i (L={n}, T={T}, scale={sc})")
+        if any(not np.array_equal(a, b) for a, b in zip(given, arrs)):
+            probs.append("total_magnetisation modified its input")
+        try:
+            total_magnetisation([])
+            probs.append("total_magnetisation([]) did not raise the documented ValueError")
+        except ValueError:
+            pass
+    except Exception as e:  # noqa: BLE001
+        probs.append(f"raised {type(e).__name__}: {str(e)[:120]}")
+    if probs:
+        ctx.oracle_fail(case, f"magnetisation helpers ({case['structure']}, n={n}, with_factor={wf}): "
+                        + "; ".join(probs[:3]))
+
+
 # =============================================================================== shrinking
 
 def shrink(case):
@@ -1545,6 +2230,49 @@ def shrink(case):
             yield dict(case, bonds=[1] * (n - 1))
         if case["cls"] != "mps":
             yield dict(case, cls="mps", opens=[[2] for _ in range(n)])
+    elif k == "mpsdirect":
+        n, r, order = case["n"], case["r"], case["order"]
+        if n > 2:
+            # drop the site attached last
+            if order[-1] == "R":
+                yield dict(case, n=n - 1, opens=case["opens"][:-1], bonds=case["bonds"][:-1], pad=case["pad"][:-1],
+                           padpos=case["padpos"][:-1], order=order[:-1])
+            elif r > 0:
+                yield dict(case, n=n - 1, r=r - 1, opens=case["opens"][1:], bonds=case["bonds"][1:],
+                           pad=case["pad"][1:], padpos=case["padpos"][1:], order=order[:-1])
+        if any(b > 1 for b in case["bonds"]):
+            yield dict(case, bonds=[1] * (n - 1))
+        if case["cls"] != "mps":
+            yield dict(case, cls="mps", opens=[[2] for _ in range(n)])
+    elif k == "star":
+        lens, sched = list(case["lens"]), list(case["sched"])
+        if len(sched) > 1:
+            c = sched[-1]
+            if lens[c] > 1 or c == len(lens) - 1:
+                lens[c] -= 1
+                if lens[c] == 0:
+                    lens.pop()
+                yield dict(case, lens=lens, sched=sched[:-1])
+        if case["cls"] != "state":
+            yield dict(case, cls="state")
+    elif k == "fork":
+        events, sublens, nmain = [list(e) for e in case["events"]], list(case["sublens"]), case["nmain"]
+        if len(events) > 1:
+            ev = events[-1]
+            if ev[0] == "m":
+                yield dict(case, nmain=nmain - 1, sublens=sublens[:-1], events=events[:-1])
+            else:
+                sublens[ev[1]] -= 1
+                yield dict(case, sublens=sublens, events=events[:-1])
+        if case["cls"] != "state":
+            yield dict(case, cls="state")
+    elif k in ("staranyl", "forkanyl", "starany", "forkany"):
+        if len(case["calls"]) > 1:
+            yield dict(case, calls=case["calls"][:-1])
+    elif k == "magn":
+        n = len(case["par"])
+        if n > 1:
+            yield dict(case, par=case["par"][:-1], order=[x for x in case["order"] if x != n - 1])
     elif k == "mpsconst":
         if case["n"] > 2:
             yield dict(case, n=case["n"] - 1, r=min(case["r"], case["n"] - 2),
